@@ -411,15 +411,41 @@ Proof.
 Qed.
 
 (* ------------------------------------------------------------------ *)
-(* histories *)
-Inductive reachable (fs : list field) (rows : list row) : tstate -> Prop :=
-| R_ctor s lim skip t : ctor fs s lim skip = Ok t -> reachable fs rows t
-| R_set t s t' : reachable fs rows t -> set_fmt t s = Ok t' -> reachable fs rows t'
-| R_print t : reachable fs rows t -> t_cols t <> [] -> reachable fs rows (fst (print rows t))
-| R_remove t names : reachable fs rows t ->
+(* a table built with fmt_obj= from ANY well-formed format state (whatever the
+   records, widths and flag of the table that state belongs to) starts fresh *)
+Theorem ctor_obj_inv fs x lim skip : inv fs x -> inv fs (ctor_obj x lim skip) /\ fresh_state (ctor_obj x lim skip).
+Proof.
+  intros [Ef Hwf]. unfold ctor_obj, clone_fmt. cbn [t_fields t_cols t_lf t_ll].
+  destruct (match lim with Some v => v | None => (t_lf x, t_ll x) end) as [lf ll].
+  assert (inv fs (mkT (t_fields x) (map clone_col (t_cols x)) lf ll None) /\
+          fresh_state (mkT (t_fields x) (map clone_col (t_cols x)) lf ll None)) as [Hi Hf].
+  { unfold wf in Hwf. apply andb_prop in Hwf as [H1 H2]. split.
+    - split; [exact Ef|]. unfold wf. cbn [t_fields t_cols]. rewrite H1. cbn [andb].
+      apply wf_col_keeps; [apply keeps_clone|exact H2].
+    - split; [apply fresh_map_clone|reflexivity]. }
+  destruct skip as [names|]; [split; [apply remove_inv, Hi|apply remove_fresh, Hf]|split; assumption].
+Qed.
+
+(* a rendering of a table without columns only sets the flag *)
+Lemma print_empty_coherent rows t : t_cols t = [] -> printed_ok rows (fst (print rows t)).
+Proof.
+  intros He. rewrite print_unfold. cbv zeta. cbn [fst]. rewrite He. cbn [finalized forallb].
+  unfold printed_ok, vis_pair, lines_of. cbn [t_fields t_cols t_lf t_ll t_skipped]. rewrite He.
+  split; [reflexivity|constructor].
+Qed.
+
+(* ------------------------------------------------------------------ *)
+(* histories.  [rows] = the records of the table the state belongs to; a table
+   made with fmt_obj= takes the format object of a table with OTHER records *)
+Inductive reachable (fs : list field) : list row -> tstate -> Prop :=
+| R_ctor rows s lim skip t : ctor fs s lim skip = Ok t -> reachable fs rows t
+| R_set rows t s t' : reachable fs rows t -> set_fmt t s = Ok t' -> reachable fs rows t'
+| R_print rows t : reachable fs rows t -> reachable fs rows (fst (print rows t))
+| R_remove rows t names : reachable fs rows t ->
     (forall c, In c (t_cols t) -> existsb (str_eqb (c_name c)) names = true ->
                c_break c = false \/ c_width c = None) ->
-    reachable fs rows (remove_columns t names).
+    reachable fs rows (remove_columns t names)
+| R_obj rows rows' x lim skip : reachable fs rows' x -> reachable fs rows (ctor_obj x lim skip).
 
 Lemma printed_not_fresh rows t c : printed_ok rows t -> In c (t_cols t) -> c_width c <> None.
 Proof. intros [_ H] Hc. rewrite Forall_forall in H. rewrite (H c Hc). discriminate. Qed.
@@ -427,13 +453,18 @@ Proof. intros [_ H] Hc. rewrite Forall_forall in H. rewrite (H c Hc). discrimina
 Theorem reachable_inv fs rows t : fields_okb fs = true -> reachable fs rows t ->
   inv fs t /\ coherent rows t.
 Proof.
-  intros Hfs H. induction H as [s lim skip t H|t s t' _ [IH1 IH2] H|t _ [IH1 IH2] Hne|t names _ [IH1 IH2] Hnb].
+  intros Hfs H.
+  induction H as [rows s lim skip t H|rows t s t' _ [IH1 IH2] H|rows t _ [IH1 IH2]
+                 |rows t names _ [IH1 IH2] Hnb|rows rows' x lim skip _ [IH1 _]].
   - destruct (ctor_inv fs s lim skip t Hfs H) as [Hi Hf]. split; [exact Hi|left; exact Hf].
   - destruct (set_fmt_inv fs t s t' Hfs IH1 H) as [Hi Hf]. split; [exact Hi|left; exact Hf].
-  - split; [apply print_inv, IH1|right; apply print_coherent; assumption].
+  - split; [apply print_inv, IH1|right].
+    destruct (t_cols t) as [|c r] eqn:Ec; [apply print_empty_coherent, Ec|].
+    apply print_coherent; [rewrite Ec; discriminate|exact IH2].
   - split; [apply remove_inv, IH1|].
     destruct IH2 as [Hf|Hp]; [left; apply remove_fresh, Hf|].
     apply remove_nonbreak_coherent; [|right; exact Hp].
     intros c Hc Hn. destruct (Hnb c Hc Hn) as [Hb|Hw]; [exact Hb|].
     exfalso. apply (printed_not_fresh rows t c Hp Hc Hw).
+  - destruct (ctor_obj_inv fs x lim skip IH1) as [Hi Hf]. split; [exact Hi|left; exact Hf].
 Qed.
